@@ -24,8 +24,8 @@ def unchars(a):
 
 
 class Clock:
-    def __init__(self):
-        self.now = T0
+    def __init__(self, t0=T0):
+        self.now = t0
         self.slept = 0.0
 
     def time_ns(self):
@@ -65,7 +65,7 @@ def run_impl(cfg, steps):
     """-> (outcomes, calls); outcome = user string or {'exception': repr}"""
     import radicale.auth as rauth
     import time as real_time
-    clock = Clock()
+    clock = Clock(cfg.get("t0", T0))
     table = {}
     calls = []
     try:
@@ -104,7 +104,7 @@ def age(now, t):
 
 def oracle(ctx, cfg, steps, outs, calls, tag):
     """justification of every answer by a recorded back-end answer inside the window"""
-    now = T0
+    now = cfg.get("t0", T0)
     for i, s in enumerate(steps):
         now += s["dt"]
         if i >= len(outs):
@@ -121,7 +121,8 @@ def oracle(ctx, cfg, steps, outs, calls, tag):
                  for c in calls)
         if not ok:
             ctx.violation("answer %r for (%r,%r) is not justified by any back-end answer within %d s" % (
-                o["user"], l, s["pw"], lim), case, "a back-end answer for the same credentials in the window", o)
+                o["user"], l, s["pw"], lim), case, "a back-end answer for the same credentials in the window", o,
+                finding="F26" if tag.startswith("F26") else None)
             return False
     return True
 
@@ -133,11 +134,19 @@ SHIFT_LOGINS = ["anna", "annab", "ann", "an"]
 SHIFT_PWS = ["belle42", "elle42", "abelle42", "nabelle42"]
 
 
+# logins and passwords made of digits, for clock readings whose decimal text is a prefix of a later one
+DIGIT_LOGINS = ["3", "33", "9", "93"]
+DIGIT_PWS = ["3x", "x", "33x", "9x", "39x", ""]
+
+
 def gen_history(rng, cfg):
     nlog = rng.randint(1, 5)
     shift = rng.random() < 0.3
     logins = rng.sample(SHIFT_LOGINS if shift else LOGINS, min(nlog, 4 if shift else 5))
     pws = SHIFT_PWS if shift else PWS
+    if "t0" in cfg:
+        logins = rng.sample(DIGIT_LOGINS, min(nlog, 4))
+        pws = DIGIT_PWS
     table = {}
     for l in logins:
         if rng.random() < 0.8:
@@ -166,6 +175,11 @@ def gen_history(rng, cfg):
             e = rng.choice(exps)
             dt = max(0, rng.choice([e * NS - 1, e * NS, e * NS + 1, (e + 1) * NS - 1, (e + 1) * NS, (e + 1) * NS + 1,
                                     2 * e * NS + 7, e * NS // 2]))
+        if "t0" in cfg and rng.random() < 0.4:
+            # the next clock reading is the current one with a digit appended (the clock is a few hundred seconds after the epoch)
+            cur = cfg["t0"] + sum(x["dt"] for x in steps)
+            if cur < 10 ** 13:
+                dt = int(str(cur) + rng.choice("39")) - cur
         l = rng.choice(logins)
         ml = map_login(cfg, l)
         if ml in table and rng.random() < 0.55:
@@ -178,7 +192,7 @@ def gen_history(rng, cfg):
 
 def model_outs(ctx, cfg, steps):
     req = {"m": "authcache", "succ": cfg["succ"], "fail": cfg["fail"], "lc": cfg["lc"], "uc": cfg["uc"],
-           "strip": cfg["strip"], "t0": T0,
+           "strip": cfg["strip"], "t0": cfg.get("t0", T0), "fail_salt": cfg.get("t0", T0),
            "steps": [{"dt": s["dt"], "l": chars(s["l"]), "pw": chars(s["pw"]),
                       "creds": [[chars(a), chars(b), chars(c)] for a, b, c in s["creds"]]} for s in steps]}
     r = ctx.driver.ask1(req)["r"]
@@ -186,6 +200,11 @@ def model_outs(ctx, cfg, steps):
 
 
 CORPUS = [
+    ("F26 digest input without separators: clock readings 99999999999 and 999999999993, a wrong password is served from the cache",
+     {"succ": 100000, "fail": 5, "lc": False, "uc": False, "strip": False, "t0": 99_999_999_999},
+     [{"dt": 0, "l": "33", "pw": "A", "creds": [["33", "A", "33"]]},
+      {"dt": 999_999_999_993 - 99_999_999_999, "l": "33", "pw": "3x", "creds": [["33", "3x", "33"]]},
+      {"dt": 1, "l": "33", "pw": "x", "creds": [["33", "3x", "33"]]}]),
     ("F10 expiry sweep clobbers the login being checked",
      {"succ": 15, "fail": 90, "lc": False, "uc": False, "strip": False},
      [{"dt": 0, "l": "bob", "pw": "bad", "creds": [["alice", "pa", "alice"], ["bob", "pb", "bob"]]},
@@ -247,7 +266,8 @@ def run(ctx):
                          "advances straddling both expiry limits by +-1 ns, credential changes, back-ends that answer with a "
                          "canonical user name; lc/uc/strip_domain on or off; non-trivial = at least one answer served from a cache")
     ctx.trusted += ["scripted back-end and clock shim installed in radicale.auth (harness/props/c17.py)",
-                    "SHA3-512 modelled as an injective function of (salt, login, password)"]
+                    "SHA3-512 modelled as an injective function of the byte string it is fed (str(salt) ':' login ':' password); the failed-login "
+                    "key string login + ':' + str(digest) is taken to determine (login, digest)"]
     ctx.assumptions += ["the clock does not go backwards and is constant during one login call",
                         "str.lower/str.upper restricted to ASCII logins in the generator"]
     for name, cfg, steps in CORPUS:
@@ -262,7 +282,12 @@ def run(ctx):
             cfg["lc"] = True
         elif k < 0.3:
             cfg["uc"] = True
+        if rng.random() < 0.12:
+            # a clock shortly after the epoch: readings with different numbers of decimal digits inside one cache lifetime
+            cfg["t0"] = 10 ** rng.choice([9, 10, 11]) - rng.randint(1, 30)
+            cfg["succ"] = rng.choice([100000, 15])
         steps = gen_history(rng, cfg)
-        ok, outs = check_history(ctx, cfg, steps, "random-%d" % i, "lc" if cfg["lc"] else "uc" if cfg["uc"] else "strip" if cfg["strip"] else "plain")
+        ok, outs = check_history(ctx, cfg, steps, "random-%d" % i,
+                                 "epoch-clock" if "t0" in cfg else "lc" if cfg["lc"] else "uc" if cfg["uc"] else "strip" if cfg["strip"] else "plain")
         if ok and i % 5 == 0:
             independence(ctx, cfg, steps, outs)
